@@ -179,7 +179,8 @@ def generate_contents(filepath, compressor="bz2", parallelize=True):
     try:
         tar_handle = tarfile.TarFile(name=filepath, fileobj=handle, mode="r")
     except tarfile.ReadError as e:
-        if not e.message.endswith("empty header"):
+        # an archive without any member: tarfile reports "empty file" ("empty header" in older versions)
+        if not str(e).endswith(("empty header", "empty file")):
             raise
         tar_handle = []
     return convert_archive(tar_handle)
